@@ -5,6 +5,8 @@ import DimodModel.HeaderDicts
 import DimodModel.JsonObject
 import DimodModel.ZipEnd
 import DimodModel.CountDicts
+import DimodModel.ZipBytes
+import DimodModel.Npy
 
 /-! Line-protocol driver of the file-format models (C09 / C10).  One operation per line:
 
@@ -41,6 +43,14 @@ import DimodModel.CountDicts
     dqmz <hdrText> <labelled> <varsText> <nlabels> <bytes>         -> ok labels=… | err c   (dqmLoad, np.load's view as in the source under test)
     hdrtextcqm <7 counts>  /  hdrtextdqm <4 counts> <T|F>          -> hex of the header JSON text the model writes
     parsecnt <cqm|dqm> <textHex>                                   -> the counts / the flag as the loader reads them | none
+
+    zipwrite <base> <entries>                                      -> hex of the archive bytes (local entries, central directory, end record)
+    zipread <bytes> <inflate oracle>                               -> none | members   (zipOpen over the byte-level directory/member reader, real CRC-32)
+    zipreadall <bytes> <inflate oracle>                            -> prefix lengths at which the archive opens | -
+    ziptiledall <start> <bytes> <inflate oracle>                   -> prefix lengths at which the tiled opener (_open_archive + all members) succeeds | -
+    npyhdr <descr> <shape>                                         -> hex of the .npy header (magic, version, length, padded dictionary)
+    npyparse <bytes>                                               -> none | descr:shape:dataHex
+    npyparseall <bytes>                                            -> prefix lengths at which the member parses, as first..last ranges | -
 
   `mode` = full (decode the bytes) | all (outcome class of every prefix, then the prefixes on which
   the *unguarded* raw loaders would read out of bounds).  Hex of the empty string is `-`. -/
@@ -308,6 +318,46 @@ def parseLabels (s : String) : List FLabel := (splitList s ";").map fun l => par
 def qmKey (d : QmLoaded Nat) : VarInfo × QContent × Option (List Nat) := (d.varinfo, d.content, d.labels)
 def bqmKey (d : QLoaded Nat) : QContent × Option (List Nat) := (d.content, d.labels)
 
+/-! ZIP entries:  name=content=stored=method=crc=lver=cver=flags=time=date=lcsize=lusize=lextra=cextra=iattr=eattr ; …
+    (hex fields; `stored` = `s` when it is the content itself) -/
+
+def parseZEntry (s : String) : ZEntry :=
+  match s.splitOn "=" with
+  | [n, c, st, me, crc, lv, cv, fl, ti, da, lcs, lus, lex, cex, ia, ea] =>
+    { name := unhex n, content := unhex c, stored := if st = "s" then unhex c else unhex st, method := me.toNat!, crc := crc.toNat!,
+      lver := lv.toNat!, cver := cv.toNat!, flags := fl.toNat!, time := ti.toNat!, date := da.toNat!, lcsize := lcs.toNat!,
+      lusize := lus.toNat!, lextra := unhex lex, cextra := unhex cex, iattr := ia.toNat!, eattr := ea.toNat! }
+  | _ => { name := [], content := [], stored := [], method := 0, crc := 0, lver := 0, cver := 0, flags := 0, time := 0, date := 0,
+           lcsize := 0, lusize := 0, lextra := [], cextra := [], iattr := 0, eattr := 0 }
+
+/-- CRC-32 (IEEE 802.3, reflected, as `zlib.crc32`) -/
+def crc32Byte (c : UInt32) (b : UInt8) : UInt32 := Id.run do
+  let mut x := c ^^^ b.toUInt32
+  for _ in [0:8] do
+    x := if x &&& 1 = 1 then (x >>> 1) ^^^ 0xEDB88320 else x >>> 1
+  return x
+
+def crc32 (bs : Bytes) : Nat := ((bs.foldl crc32Byte 0xFFFFFFFF) ^^^ 0xFFFFFFFF).toNat
+
+/-- the deflate codec as a table: stored bytes -> content -/
+def parseInflate (s : String) : Bytes → Option Bytes :=
+  let tbl := (splitList s ",").map fun e => match e.splitOn ":" with
+    | [a, b] => (unhex a, unhex b)
+    | _ => ([], [])
+  fun st => (tbl.find? fun e => e.1 = st).map (·.2)
+
+def showBMembers (a : List (Bytes × Bytes)) : String :=
+  if a.isEmpty then "-" else String.intercalate "," (a.map fun m => toHex m.1 ++ "=" ++ toHex m.2)
+
+def rangesOf (hits : List Nat) : String :=
+  let rec go : List Nat → Option (Nat × Nat) → List String → List String
+    | [], none, acc => acc.reverse
+    | [], some (a, b), acc => (s!"{a}..{b}" :: acc).reverse
+    | j :: t, none, acc => go t (some (j, j)) acc
+    | j :: t, some (a, b), acc => if j = b + 1 then go t (some (a, j)) acc else go t (some (j, j)) (s!"{a}..{b}" :: acc)
+  let r := go hits none []
+  if r.isEmpty then "-" else String.intercalate "," r
+
 def handle (toks : List String) : String :=
   match toks with
   | ["mkhdr", pre, maj, min, text] =>
@@ -457,6 +507,28 @@ def handle (toks : List String) : String :=
       match parseDqmHeader (unhex text) with
       | none => "none"
       | some (b, d) => (if b then "T" else "F") ++ s!" keys={d.length}"
+  | ["zipwrite", base, entries] => toHex (zipBytes base.toNat! ((splitList entries ";").map parseZEntry))
+  | ["zipread", bytes, orc] =>
+    match zipOpen (readDirBytes crc32 (parseInflate orc)) (unhex bytes) with
+    | none => "none"
+    | some ms => showBMembers ms
+  | ["zipreadall", bytes, orc] =>
+    let b := unhex bytes
+    let inf := parseInflate orc
+    rangesOf ((List.range (b.length + 1)).filter fun j => (zipOpen (readDirBytes crc32 inf) (b.take j)).isSome)
+  | ["npyhdr", descr, shape] =>
+    toHex (npyHeader descr.toList (if shape = "-" then [] else (shape.splitOn ".").map String.toNat!))
+  | ["npyparse", bytes] =>
+    match parseNpy [] (unhex bytes) with
+    | none => "none"
+    | some m => String.ofList m.descr ++ ":" ++ (if m.shape.isEmpty then "-" else String.intercalate "." (m.shape.map toString)) ++ ":" ++ toHex m.data
+  | ["npyparseall", bytes] =>
+    let b := unhex bytes
+    rangesOf ((List.range (b.length + 1)).filter fun j => (parseNpy [] (b.take j)).isSome)
+  | ["ziptiledall", start, bytes, orc] =>
+    let b := unhex bytes
+    let inf := parseInflate orc
+    rangesOf ((List.range (b.length + 1)).filter fun j => (openTiled crc32 inf start.toNat! (b.take j)).isSome)
   | _ => "bad-op"
 
 def main : IO Unit := do
